@@ -37,7 +37,7 @@ Proof.
     + destruct (to_stdout opt).
       * intro E. injection E as F1 F2. subst. auto.
       * destruct (dedupe [] (linked oc)) as [kept e2] eqn:ED. intro E. injection E as F1 F2. subst.
-        intros o Ho. destruct (dedupe_kept _ _ _ _ ED) as [_ H]. apply H. exact Ho.
+        intros o Ho. destruct (dedupe_kept _ _ _ ED) as [_ H]. apply H. exact Ho.
 Qed.
 
 (* when no output path and no path of the hash table goes through a link, the
